@@ -428,10 +428,78 @@ pub fn cmd_call(args: &[String]) {
             let o2 = run(e, *cfg, buf, real_cap);
             if crate::judge::same_result(&o, buf, &o2, buf).is_some() { disagree += 1; }
         }
-        writeln!(w, "{{\"ev\":\"end\",{},\"entries\":{}}}", obs_json(&o, buf, *kind), disagree).unwrap();
+        writeln!(w, "{{\"ev\":\"end\",{},\"entries\":{},\"twin\":-1}}", obs_json(&o, buf, *kind), disagree).unwrap();
         bytes_total += data.len();
     }
-    println!("{{\"calls\":{},\"bytes\":{}}}", inputs.len(), bytes_total);
+    // twins: the same field pumped to more than 4 GiB (aliased mapping), compared with the small
+    // input recorded here (spec/Pump.tla)
+    let twins: [(u8, u8, usize, &[u8], u8, &[u8]); 5] = [
+        (K_REQ, 0, 8, b"GET / HTTP/1.1\r\nA: b\r\nX-Big: ", b'v', b"\r\nC: d\r\n\r\n"),
+        (K_HDRS, 0, 8, b"A: b\r\nX-Big: ", b'v', b"\r\nC: d\r\n\r\n"),
+        (K_REQ, 0, 8, b"GET /", b'p', b" HTTP/1.1\r\nA: b\r\n\r\n"),
+        (K_RESP, 0, 8, b"HTTP/1.1 200 ", b'r', b"\r\nA: b\r\n\r\n"),
+        (K_RESP, 64, 8, b"HTTP/1.1 200 OK\r\nbad line ", b'z', b"\r\nA: b\r\n\r\n"),
+    ];
+    let mut twins_checked = 0;
+    let mut twins_skipped = 0;
+    for (ti, (kind, cfg, cap, prefix, fill, suffix)) in twins.iter().enumerate() {
+        if !thorough && (ti as u64 + seed) % 5 >= 3 { continue; }      // quick: three of the five per run
+        let k = 1000usize;
+        let mut data = prefix.to_vec();
+        data.extend(std::iter::repeat(*fill).take(k));
+        data.extend_from_slice(suffix);
+        let w = &mut ws[ti % shards];
+        let buf = arena.place(&data, Place::End);
+        let o = run(entry_of(*kind), *cfg, buf, *cap);
+        let tw = twin_ok(*kind, *cfg, *cap, prefix, *fill, suffix, &o, buf, k);
+        if tw < 0 { twins_skipped += 1; } else { twins_checked += 1; }
+        writeln!(w, "{{\"ev\":\"begin\",\"kind\":{},\"cfg\":{},\"cap\":{},\"len\":{}}}", kind, cfg, cap, data.len()).unwrap();
+        for ch in data.chunks(256) {
+            writeln!(w, "{{\"ev\":\"bytes\",\"b\":[{}]}}", ch.iter().map(|x| x.to_string()).collect::<Vec<_>>().join(",")).unwrap();
+        }
+        writeln!(w, "{{\"ev\":\"end\",{},\"entries\":0,\"twin\":{}}}", obs_json(&o, buf, *kind), tw).unwrap();
+    }
+    println!("{{\"calls\":{},\"bytes\":{},\"twins_checked\":{},\"twins_skipped\":{}}}", inputs.len(), bytes_total, twins_checked, twins_skipped);
+}
+
+
+// ---------------------------------------------------------------- twins (pumping lemma, spec/Pump.tla)
+/// `prefix . fill^k . suffix` parsed with k = 1000 (ordinary buffer; this is the input whose bytes
+/// go into the trace) and with K = 2^32 + 5 (aliased mapping): by the pumping lemma the two
+/// results are equal up to a shift of K - k of every offset at or behind the run.
+fn twin_ok(kind: u8, cfg: u8, cap: usize, prefix: &[u8], fill: u8, suffix: &[u8], small: &Obs, small_buf: &[u8], k: usize) -> i32 {
+    let big_k: usize = (1usize << 32) + 5;
+    let al = match crate::alias::Aliased::new(prefix, fill, big_k, suffix) {
+        Some(a) => a,
+        None => return -1,
+    };
+    let bb = al.bytes();
+    let big = run(entry_of(kind), cfg, bb, cap);
+    if big.panicked || small.panicked { return 0; }
+    let d = big_k - k;
+    let run_start = prefix.len();
+    let f = |x: usize| -> usize { if x <= run_start { x } else { x + d } };
+    let map = |s: &Option<Sl>, b: &[u8]| -> Option<(usize, usize, usize)> { s.map(|x| x.within(b).map(|w| (w.0, w.1, x.len)).unwrap_or((usize::MAX, usize::MAX, x.len))) };
+    let same_span = |a: &Option<Sl>, b: &Option<Sl>| -> bool {
+        match (map(a, small_buf), map(b, bb)) {
+            (None, None) => true,
+            (Some(x), Some(y)) => {
+                if x.2 == 0 && y.2 == 0 { true } else { x.0 != usize::MAX && y.0 == f(x.0) && y.1 == f(x.1) }
+            }
+            _ => false,
+        }
+    };
+    let mut ok = big.st == small.st && big.err == small.err;
+    if small.st == ST_C { ok = ok && big.n == small.n + d; }
+    ok = ok && same_span(&small.method, &big.method) && same_span(&small.path, &big.path) && same_span(&small.reason, &big.reason);
+    ok = ok && small.version == big.version && small.code == big.code && small.exposed.len() == big.exposed.len();
+    if ok {
+        for i in 0..small.exposed.len() {
+            ok = ok && same_span(&Some(small.exposed[i].0), &Some(big.exposed[i].0)) && same_span(&Some(small.exposed[i].1), &Some(big.exposed[i].1));
+        }
+    }
+    ok = ok && big.allocs == 0;
+    ok as i32
 }
 
 // ---------------------------------------------------------------- session
